@@ -9,7 +9,6 @@ import (
 	"crypto/x509/pkix"
 	"fmt"
 	"math/big"
-	"strings"
 
 	"pgregory.net/rapid"
 
@@ -188,7 +187,7 @@ func genForest(t *rapid.T, o forestOpts) forest {
 		for i := range f.W.Ents {
 			if rapid.IntRange(0, 2).Draw(t, fmt.Sprintf("e%d-hasvalidity", i)) == 0 {
 				v := genValidity(t, fmt.Sprintf("e%d-validity", i))
-				if v != nil && validSpec(v) && !strings.Contains(v.Duration, "9999") && !strings.Contains(v.Duration, "7900") && !strings.Contains(v.Duration, "8000") && !strings.Contains(v.Duration, "3000000") {
+				if v != nil && representable(v) {
 					f.W.Ents[i].Validity = v
 				}
 			}
